@@ -4,6 +4,8 @@ import math
 import random
 
 from vlib import common
+from vlib import session_common as ssn
+from vlib import spec1d_common as sc1
 
 PID = "C12"
 G = 9.81
@@ -37,7 +39,7 @@ def run(tier):
             grp = rng.sample(grp, 400)
         B, nf = len(grp), len(fk)
         f = np.array(fk, dtype="float64") * 0.125         # Hz (dyadic: ties in E*f^4 stay exact in float)
-        scale = 2.0 ** -13                                   # m^2/Hz per unit
+        scale = 2.0 ** rng.choice([-13, -13, -27, -34, -20])   # m^2/Hz per unit: ordinary, weak and very weak spectra (the selection must not depend on the level)
         E = np.array([[np.nan if c["nan"][j] else c["e"][j] * scale for j in range(nf)] for c in grp])
         octs = grp[0]["oct"]
         a1 = np.array([[0.9 * math.cos(math.radians(45 * o)) for o in octs]] * B)
@@ -72,7 +74,7 @@ def run(tier):
                     continue
                 z0 = alpha * ust ** 2 / G
                 u10 = ust / kappa * math.log(10.0 / z0)
-                if abs(float(go["u10"].values[i]) - u10) > 1e-10 * u10:
+                if abs(float(go["u10"].values[i]) - u10) > 1e-10 * abs(u10):
                     chk.violation("u10", "U10 does not follow from the log profile with the Charnock roughness", dict(ctx, got=float(go["u10"].values[i]), expected=u10))
 
     # analytic f^-4 tails, both methods, non-default parameters, scaling, 2D == 1D ----------------------------------------------
@@ -134,6 +136,19 @@ def run(tier):
         for name in ("u10", "friction_velocity", "direction"):
             if not np.allclose(o2[name].values, o1[name].values, rtol=1e-12, atol=1e-12):
                 chk.violation("2d-vs-1d:%s" % name, "a 2D spectrum gives a different %s than its 1D reduction" % name, ctx)
+    # histories of one object (SpectrumSession.tla behaviours): the estimate after queries interleaved with in-place changes
+    sessions = sc1.tlc_sessions(chk, quick, chk.seed)
+
+    def _est(method):
+        def q(s, lo, hi):
+            o = estimate_u10_from_spectrum(s, method, fmax=float(s.frequency.values[-1]), number_of_bins=2)
+            return np.stack([np.asarray(o["friction_velocity"].values), np.asarray(o["u10"].values), np.asarray(o["direction"].values)])
+        return q
+    nrep, nq = ssn.freshness_replay(chk, sessions[:70] if quick else sessions, rng, [("1d", ssn.build_1d), ("2d/8 directions", ssn.build_2d)],
+                                    [("estimate (peak)", _est("peak")), ("estimate (mean)", _est("mean"))], "C12")
+    chk.add("spec_traces_replayed", nrep)
+    chk.set("session_queries_compared", nq)
+    evals += nq
     chk.set("evaluations", evals)
     chk.set("distinct_nontrivial", len(distinct))
     chk.assume("the specification decides the selection (first maximum of E*f^4, missing = 0) and the direction convention arithmetic on octant directions; "
